@@ -2106,14 +2106,19 @@ func TestCheck(t *testing.T) {
 		"(stop+2 accepts from empty, listener close under waiters or closes one by one). distinct = (stop,resume,K,feature set observed); " +
 		"non-trivial = the stop threshold was reached AND an accept was parked in the limiter at a quiescent point. " +
 		"pipeline: proto x limit n in {1,2,5} x seeded (1..2 connections, burst 4n+8..4n+47, one write or one write per query); distinct = (proto,n,connections,write mode); " +
-		"non-trivial = every connection had exactly n queries inside the gated handler")
+		"non-trivial = every connection had exactly n queries inside the gated handler. " +
+		"service: real dnssvc.Service with Config.ConnLimiter, 2 groups / 4 servers / 5 stream listeners (plain DNS over TCP and DoT, each with a server on bind addresses and a server whose bind data " +
+		"carries its own ListenConfig; the DoT one has two bind-data entries); 2 seeded (stop,resume) pairs with stop > 5 (all 7 in thorough) x every listener as the one through which the connections are opened first; " +
+		"real TCP/TLS client connections; distinct = (stop,resume,filler listener); non-trivial = `stop` answered connections were open at once and further connections to every listener were probed")
 	r.Assume("quiescent point = one stop-the-world goroutine dump shows every actor with a call in progress parked in a blocking primitive (sync.Cond.Wait, channel, mutex), " +
 		"all other calls have returned and the event log did not grow; the limiter has no timers or goroutines of its own")
+	r.Assume("service monitor: a connection counts as accepted-and-open from the moment the client has its answer until the client closes it; the servers' idle timeout (1 h) never closes one first")
 	r.Assume("stop=0 is outside the limiter's documented domain (New rejects it)")
 	r.Assume("the active_stream_conns gauge lies between the number of open connections and open+pending at quiescent points")
 
 	limiterMonitor(r)
 	pipelineMonitor(r)
+	serviceMonitor(r)
 
 	r.Require("limiter_schedules_completed", int64(r.N(100, 1000)))
 	r.Require("limiter_quiescent_points", int64(r.N(4000, 40000)))
@@ -2127,6 +2132,10 @@ func TestCheck(t *testing.T) {
 	r.Require("limiter_failed_pending_accept_resumed_limiter_with_waiters_elsewhere_transient", int64(r.N(60, 600)))
 	r.Require("limiter_failed_pending_accept_resumed_limiter_with_waiters_elsewhere_closed-late", int64(r.N(60, 600)))
 	r.Require("limiter_failed_pending_accept_resumed_limiter_with_waiters_elsewhere_closed", int64(r.N(60, 600)))
+	r.Require("service_cases_stop_reached", int64(r.N(8, 28)))
+	r.Require("service_further_connections_not_served_while_stopped_"+flavLC, int64(r.N(40, 140)))
+	r.Require("service_further_connections_not_served_while_stopped_"+flavAddr, int64(r.N(25, 90)))
+	r.Require("service_cases_waiting_connection_served_after_resume", int64(r.N(8, 28)))
 	r.Require("pipeline_cases_limit_reached", int64(r.N(12, 120)))
 	r.Require("pipeline_answers_received", int64(r.N(250, 2500)))
 }
